@@ -13,4 +13,4 @@ CARGO_NET_OFFLINE=true cargo build --release --offline -p vh-translate
 "$here/tie/regen.sh"
 cd "$here/lean"
 lake build
-lake build ImapVerif.Gen.Transfer
+lake build ImapVerif.Gen.Transfer ImapVerif.Gen.Robust ImapVerif.Gen.Owned
